@@ -222,6 +222,10 @@ def apply(it, fn, args, dest_ty, term, caller, depth):
     # ---- comparisons of field-less enum values, Ord on integers (generic mode has no core bodies)
     if name in ("eq", "ne") and fn.get("trait", "").endswith("PartialEq") and len(args) == 2:
         a, b = deref_val(it, args[0]), deref_val(it, args[1])
+        for _lvl in range(3):           # `&&u64 == &&u64`: references compare by value
+            if isinstance(a, Ref) and isinstance(b, Ref) and a.len is None and b.len is None and \
+                    not isinstance(it.read(a.cell, a.path), (Arr, VecV)) and not isinstance(it.read(b.cell, b.path), (Arr, VecV)):
+                a, b = it.read(a.cell, a.path), it.read(b.cell, b.path)
         if isinstance(a, Adt) and isinstance(b, Adt) and not a.fields and not b.fields and a.variant is not None and b.variant is not None and a.name == b.name:
             return mkbool((a.variant == b.variant) == (name == "eq"))
         if isinstance(a, Int) and isinstance(b, Int):
